@@ -82,6 +82,7 @@ type replayer struct {
 	args   []string
 	notes  []string
 	retTerms []Val
+	imports  map[string]string
 }
 
 func (rp *replayer) supported(t types.Type, depth int) bool {
@@ -471,6 +472,10 @@ func (rp *replayer) goType(t types.Type) string {
 		if p == pkg {
 			return ""
 		}
+		if rp.imports == nil {
+			rp.imports = map[string]string{}
+		}
+		rp.imports[p.Path()] = p.Name()
 		return p.Name()
 	})
 }
@@ -489,7 +494,19 @@ func (rp *replayer) testSource() string {
 	for _, n := range rp.notes {
 		fmt.Fprintf(&sb, "// note: %s\n", n)
 	}
-	sb.WriteString("\nimport (\n\t\"errors\"\n\t\"fmt\"\n\t\"testing\"\n)\n\nvar _ = errors.Is\n\n")
+	sb.WriteString("\nimport (\n\t\"errors\"\n\t\"fmt\"\n\t\"testing\"\n")
+	var ips []string
+	for p := range rp.imports {
+		ips = append(ips, p)
+	}
+	sort.Strings(ips)
+	for _, p := range ips {
+		if p == "errors" || p == "fmt" || p == "testing" {
+			continue
+		}
+		fmt.Fprintf(&sb, "\t%s %q\n", rp.imports[p], p)
+	}
+	sb.WriteString(")\n\nvar _ = errors.Is\n\n")
 	sb.WriteString("func TestVPReplay(t *testing.T) {\n")
 	for _, s := range rp.setup {
 		fmt.Fprintf(&sb, "\t%s\n", s)
@@ -1034,6 +1051,14 @@ func (rp *replayer) judgeHarness(out string) (string, string) {
 	for _, l := range lines {
 		if strings.HasPrefix(l, "VPR postfail ") && strings.TrimSpace(strings.TrimPrefix(l, "VPR postfail ")) == strings.TrimSpace(rp.o.Clause) {
 			return "confirmed", "the clause is false on the real code\n" + detail
+		}
+	}
+	for _, l := range lines {
+		if strings.HasPrefix(l, "VPR violates ") {
+			frag := strings.TrimSpace(strings.TrimPrefix(l, "VPR violates "))
+			if frag != "" && strings.Contains(rp.o.Clause, frag) {
+				return "confirmed", "the clause is violated on the real code\n" + detail
+			}
 		}
 	}
 	if panicked != "" && rp.o.Kind == "post" {
